@@ -290,6 +290,11 @@ def oracle_c17(h):
             got[kuser.get(op["k"])].add(obs["resp_tag"])
         if kind == "ustart":
             kuser[op["k"]] = op["user"]
+            if obs.get("outcome") == "returned" and obs.get("resp_tag") and "gt_backends" in obs and not op.get("faults"):
+                path = unquote_path(op["url"].split("?")[0])
+                mine = [b for b in obs["gt_backends"] if b.get("euser") in (op["user"], "allUsers") and any(path.startswith(pf) for pf in (b.get("prefixes") or []))]
+                if not mine:
+                    res.append(("user-served-without-a-backend", "user %r was answered 200 (a stored response) for %s although no backend registered for that user or for allUsers matches the path any more" % (op["user"], op["url"]), _base(h, row)))
             if obs.get("outcome") == "returned" and obs.get("resp_tag"):
                 if obs["resp_tag"] not in got[op["user"]]:
                     res.append(("user-served-another-users-response", "user %r was answered with response %s, which had only been delivered to %s" % (
